@@ -147,8 +147,8 @@ def reach(plist, vseed):
         seen.update(cov["probes"])
         missing = [e for e in expect if not seen.get(e)]
         print("%s: exit %d, %d perturbation kinds fired, missing %r" % (prop, rc, len(cov["faults_fired"]), missing))
-        if missing:
-            ok = False
+        if missing or rc != 0:
+            ok = False          # (the unchanged tree must also come out clean: exit 1 or 2 here is a broken check)
     print("reach selftest: %s" % ("PASS" if ok else "FAIL"))
     return 0 if ok else 1
 
